@@ -33,16 +33,36 @@ BAD_CONSTRAINTS = [
 ]
 
 
+CONTAINER_KEYS = ('schema', 'items', 'keysrules', 'valuesrules', 'allow_unknown', 'allof', 'anyof', 'noneof', 'oneof')
+
+
+def hops(path):
+    """number of container rules between the top-level field and the rules set at path"""
+    return sum(1 for k in path[1:] if isinstance(k, str) and k in CONTAINER_KEYS)
+
+
+def depth_class(n):
+    return "deep" if n >= 2 else "shallow"
+
+
 def corruptions(schema, rng, k):
     """yield (kind, position-kind, corrupted schema)"""
     pos = list(positions.rule_sets(schema))
     out = []
     for path, pkind, rules in rng.sample(pos, min(len(pos), k)):
-        choice = rng.randrange(9)
+        choice = rng.randrange(10)
+        if choice == 9:
+            # the constraint of a `schema` rule given by a name that does not resolve / resolves to an ill-formed schema
+            if isinstance(rules, dict) and 'schema' in rules:
+                name = rng.choice(['NO_SUCH_SCHEMA', 'BAD_SCHEMA'])
+                out.append(("dangling-reference" if name == 'NO_SUCH_SCHEMA' else "invalid-definition-reference:" + depth_class(hops(path)), pkind,
+                            positions.edit_at(schema, path, lambda r, name=name: r.__setitem__('schema', name))))
+            continue
         if choice == 8:
             # a reference to a registry entry that exists but is itself ill-formed
             if pkind in ('field', 'dict-schema', 'keysrules', 'valuesrules', 'items', 'list-schema', 'allow_unknown-rule'):
-                out.append(("invalid-definition-reference", pkind, positions.set_at(schema, path, 'BAD_RULES_SET')))
+                # (the reference is held by the enclosing rules set: one hop less than the path of the replaced rules set)
+                out.append(("invalid-definition-reference:" + depth_class(hops(path) - 1), pkind, positions.set_at(schema, path, 'BAD_RULES_SET')))
             continue
         if choice == 6:
             # the rules set itself is not a mapping (nor a name)
@@ -155,6 +175,7 @@ def encode_accept(schema, cfg):
 
 # an ill-formed definition in the module-level registry (registries expand definitions on add, they do not validate them)
 cerberus.rules_set_registry.add('BAD_RULES_SET', {'type': 'nosuchtype'})
+cerberus.schema_registry.add('BAD_SCHEMA', {'v': {'type': 'nosuchtype'}})
 
 
 def real_accepts(schema, cfg):
@@ -258,7 +279,7 @@ def run(ctx):
             real = real_accepts(sch, cfg2)
             modelled += 1
             if m.get("r") != real and not (real.startswith("raise") and m.get("r") == "rejected"):
-                sig = ("accepted:" + kind) if (kind in ("dangling-reference", "invalid-definition-reference") and real == "accepted") else "model-vs-code:acceptance"
+                sig = ("accepted:" + kind) if (kind.split(":")[0] in ("dangling-reference", "invalid-definition-reference") and real == "accepted") else "model-vs-code:acceptance"
                 violations.append({"signature": sig, "what": "documented grammar says %s, the real validator %s (%s)" % (m.get("r"), real, kind),
                                    "replay": {"good": common.jval(sch), "bad": common.jval(sch), "config": common.jval(cfg2), "entry": "constructor",
                                               "kind": kind, "position": "?", "probe": {"d": []}}})
